@@ -44,7 +44,7 @@ package pair
 //@ func (p *SetupServerSession) SetupPrivateKeyFromClientPublicKey(key) (err)
 //@   requires p != nil && p.session != nil
 //@   modifies p.PrivateKey, srpkey(p.session), keyset(p.session)
-//@   ensures err == nil ==> seq(p.PrivateKey) == srpkey(p.session) && keyset(p.session) && ref(p.PrivateKey) != ref(p) && len(p.PrivateKey) > 0
+//@   ensures err == nil ==> seq(p.PrivateKey) == srpkey(p.session) && keyset(p.session) && fresh(p.PrivateKey) && len(p.PrivateKey) > 0
 //@   ensures err != nil ==> unchanged(p.PrivateKey) && srpkey(p.session) == old(srpkey(p.session)) && keyset(p.session) == old(keyset(p.session))
 
 //@ func (p *SetupServerSession) ProofFromClientProof(clientProof) (proof, err)
